@@ -37,7 +37,7 @@ def find_engine(ctx):
     best = None
     for k in cg.reachable([ent["key"]]):
         f = fx.fns[k]
-        if f.get("exp") or f.get("impl_trait") or f["kind"] not in ("Fn", "AssocFn"):
+        if f.get("exp") or f.get("impl_trait") or f["kind"] not in ("Fn", "AssocFn", "Closure"):
             continue
         kinds = set()
         for blk in f["blocks"]:
@@ -53,7 +53,7 @@ def find_engine(ctx):
         if not any((c or "").startswith("std::collections::BTreeSet::") for c in region_calls):
             continue
         if len(kinds) >= 4 and (best is None or len(kinds) > best[0]):
-            best = (len(kinds), f)
+            best = (len(kinds), fx.root_of(f) if f["kind"] == "Closure" else f)    # a dispatch written in a local closure belongs to its function
     if not best:
         return None
     # the dispatch may live in a private helper (or a method of a private struct): the engine is the function of that module
